@@ -1442,3 +1442,40 @@ impl<K: Key + 'static, V: Key + 'static> MultimapCursor<'_, K, V> {
         }
     }
 }
+
+#[cfg(redb_verif)]
+impl<K: Key + 'static, V: Key + 'static> MultimapTable<'_, K, V> {
+    /// Verification hook (read-only): how the values of `key` are stored.
+    /// `None` if the key is absent, otherwise
+    /// `(is_subtree, stored number of values, subtree root is a leaf page, byte length of the inline
+    /// leaf or of the subtree's root leaf (0 for a branch root))`.
+    pub fn verif_collection_info<'a>(
+        &self,
+        key: impl Borrow<K::SelfType<'a>>,
+    ) -> Result<Option<(bool, u64, bool, usize)>> {
+        let Some(guard) = self.tree.get(key.borrow())? else {
+            return Ok(None);
+        };
+        let v = guard.value();
+        match v.collection_type() {
+            Inline => Ok(Some((
+                false,
+                v.get_num_values(),
+                true,
+                v.as_inline().len(),
+            ))),
+            SubtreeV2 => {
+                let header = v.as_subtree();
+                let page = self.page_allocator.get_page(header.root, PageHint::None)?;
+                let is_leaf = page.memory()[0] == LEAF;
+                let len = if is_leaf {
+                    LeafAccessor::new(page.memory(), V::fixed_width(), <() as Value>::fixed_width())
+                        .total_length()
+                } else {
+                    0
+                };
+                Ok(Some((true, v.get_num_values(), is_leaf, len)))
+            }
+        }
+    }
+}
